@@ -112,6 +112,10 @@ class Connection:
     async def commit(self) -> None:
         def op() -> None:
             assert self._db is not None
+            if self.sim.fault is not None:
+                err = self.sim.fault(self, "COMMIT")
+                if err is not None:
+                    raise err
             self._db.commit()
 
         await self._submit("commit", op)
